@@ -10,13 +10,14 @@ from harness import core
 ID = 'C20'
 TITLE = 'Row positions stay unique and order-preserving'
 PROPS = ['Props/C20']
-DISABLED = True
 PROOF_TIMEOUT = 1500
 
 RULE = ('cases = (sorted existing positions, batch of requested positions) as 64-bit patterns. Existing lists: '
         'integers 1..n, uniformly random, powers of two, halving series down to the subnormals, neighbourhoods of '
         'adjacent doubles (gaps 1 or 2-5 ulp) around anchors incl. binade boundaries, 2^52, 2^53, subnormals, '
-        'zero/negative (renumber-all path), >= 2^53, and a legacy stream with duplicates and infinities; requests: '
+        'zero/negative (renumber-all path), >= 2^53, a legacy stream with duplicates and infinities, and "evolved" '
+        'lists obtained by applying prepare_inserts results over and over (one spot hammered, several spots at once, '
+        'both ends); requests: '
         'ties with existing rows, their successors, duplicates, +-inf, 0, random, and "all at one crowded spot". '
         'Every case is run through relabeling.prepare_inserts; the Gallina model must return the same patterns (or '
         'the same exception site), the certified checker `check` is evaluated in Coq on the implementation result, '
@@ -365,11 +366,11 @@ def evolved_cases(rng, nhist, steps, maxlen):
 
 def gen_cases(ctx):
   out = [(o, k, 'fixed') for (o, k) in fixed_cases()]
-  for _ in range(ctx.n(330, 8000)):
+  for _ in range(ctx.n(230, 8000)):
     o, mode = gen_orig(ctx.rng)
     out.append((o, gen_keys(ctx.rng, o), mode))
   ev = evolved_cases(ctx.rng, ctx.n(8, 150), ctx.n(40, 120), ctx.n(60, 250))
-  step = max(1, len(ev) // ctx.n(130, 3000))
+  step = max(1, len(ev) // ctx.n(90, 3000))
   out.extend(ev[::step])          # a sample of the steps (all of them were run through the implementation)
   if ctx.tier == 'thorough':
     # exhaustive small scope: every strictly increasing list of <= 3 positions out of 7 consecutive doubles around each
@@ -452,7 +453,7 @@ def op_cases(ctx):
   def emit(op, x, y, n, res):
     out.append('(%d%%Z, %s, %s, %s, %s)' % (op, hz(bits(x)), hz(bits(y)), hz(n),
                                              hzlist([b(v) if isinstance(v, float) else v for v in res])))
-  for _ in range(ctx.n(600, 20000)):
+  for _ in range(ctx.n(400, 20000)):
     x, y = rnd_float(), rnd_float()
     if x != x or y != y:
       continue                    # NaN operands are outside the model (it keeps a single NaN)
@@ -510,12 +511,13 @@ def correspond(ctx):
     ctx.count((tuple(bits(x) for x in orig), tuple(bits(x) for x in keys)), nontrivial=nontrivial(orig, keys, r),
               sample={'orig': orig[:6], 'keys': keys[:6], 'result': repr(r[1:3])[:200]},
               kind='%s/%s' % (mode, 'exception' if r[0] == 'exc' else ('adjusted' if r[1] else 'plain')))
+  ctx.log('implementation run on %d cases' % len(coq))
   imports = ['Grist.Lib.Fl64', 'Grist.Model.Relabel']
   # 1+2 in one evaluation per case: the model returns the same patterns (or the same exception site) as the
   # implementation, and the certified checker accepts every result the implementation returned
   both = ('Definition both_bits (c : list Z * list Z * outcome) : bool :=\n'
           '  agree_bits c && (let \'(_, _, (code, _, _)) := c in if code =? 0 then check_bits c else true).')
-  bad = ctx.run_cases('both', imports, 'both_bits', coq, shard=ctx.n(80, 400), timeout=1200, extra_defs=both)
+  bad = ctx.run_cases('both', imports, 'both_bits', coq, shard=ctx.n(50, 400), timeout=1200, extra_defs=both)
   okidx = [i for i, c in enumerate(ctx._c20) if c[3][0] == 'ok']
   ctx._c20_rejected = set()
   if bad:
@@ -528,26 +530,29 @@ def correspond(ctx):
     badok = [i for i in bad if ctx._c20[i][3][0] == 'ok']
     rej = ctx.run_cases('cert', imports, 'check_bits', [coq[i] for i in badok], shard=100, timeout=1200)
     ctx._c20_rejected = set(badok[j] for j in rej)
+  ctx.log('model + certificates evaluated in Coq')
   ctx.extra['model_cases'] = len(coq)
   ctx.extra['certified_cases'] = len(okidx) - len(ctx._c20_rejected)
   # 2b. how many of them are also covered by the proved total-correctness theorem (C20_total_no_renumbering_partial):
   #     "failing" indexes of the negated hypothesis = cases on the no-renumbering path with well-formed doubles
-  sample = okidx[45:45 + ctx.n(100, 4000)]
+  sample = okidx[45:45 + ctx.n(60, 4000)]
   covered = ctx.run_cases('plain', imports,
                           '(fun c => let o := map decode (fst (fst c)) in let k := map decode (snd (fst c)) in '
                           'negb (check_pre o k && forallb wf_flb o && plain_path o k))',
-                          [coq[i] for i in sample], shard=ctx.n(50, 500), timeout=1200)
+                          [coq[i] for i in sample], shard=ctx.n(30, 500), timeout=1200)
   ctx.extra['covered_by_total_theorem'] = '%d of %d sampled results' % (len(covered), len(sample))
   for j in covered:
     if ctx._c20[sample[j]][3][1]:
       ctx.broken('theorem/implementation mismatch',
                  'plain_path holds but the implementation adjusted rows: %r' % (ctx._c20[sample[j]][:2],))
+  ctx.log('coverage by the total theorems evaluated')
   # 3. primitives
   ops = op_cases(ctx)
-  badops = ctx.run_cases('ops', imports, 'op_bits', ops, shard=ctx.n(300, 4000), timeout=1200)
+  badops = ctx.run_cases('ops', imports, 'op_bits', ops, shard=ctx.n(100, 4000), timeout=1200)
   for i in badops[:5]:
     ctx.broken('correspondence:Fl64 primitive differs from CPython', ops[i])
   ctx.extra['primitive_cases'] = len(ops)
+  ctx.log('primitives evaluated')
 
 
 def search(ctx):
@@ -568,7 +573,9 @@ def search(ctx):
       if nviol <= 60:
         ctx.violation(j[0], j[1], {'orig': [bits(x) for x in orig], 'keys': [bits(x) for x in keys],
                                    'orig_f': [repr(x) for x in orig], 'keys_f': [repr(x) for x in keys]})
+  ctx.log('oracle applied to all results')
   engine_histories(ctx)
+  ctx.log('engine histories done')
   robustness(ctx)
 
 
